@@ -8,37 +8,26 @@ let arch_of = function
   | "ppc" -> Model.PPC | "sparc" -> Model.SPARC | "ia64" -> Model.IA64 | "riscv" -> Model.RISCV
   | s -> failwith ("unknown arch " ^ s)
 
-let is_zero x = Big_int_Z.sign_big_int x = 0
+(* inner reader script: comma separated tokens, hex = a chunk ("-" = empty, dropped), "!<code>" =
+   one failing read() call with that error kind *)
+let script (s : string) : Model.inner_event list =
+  if s = "." then [] else
+  List.filter_map (fun t ->
+      if String.length t > 0 && t.[0] = '!' then Some (Model.IErr (zs (String.sub t 1 (String.length t - 1))))
+      else match unhex t with [] -> None | l -> Some (Model.IData l))
+    (String.split_on_char ',' s)
 
-let read_all a start parts sizes =
-  let inner0 = Model.drop_empty parts in
-  let fuel = Model.bcj_read_fuel inner0 in
-  let sizes = Array.of_list sizes in
-  let n = Array.length sizes in
-  let all_zero = Array.for_all is_zero sizes in
-  let buf = Buffer.create 4096 in
-  let rec loop i st inner =
-    let sz = if n = 0 then z 4096 else sizes.(i mod n) in
-    match Model.bcj_read fuel a st inner sz with
-    | Model.Ok ((bytes, st'), inner') ->
-      if is_zero sz then begin
-        if bytes <> [] then "ERR 6"
-        else if all_zero && n > 0 then "OK " ^ (if Buffer.length buf = 0 then "-" else Buffer.contents buf)
-        else loop (i + 1) st' inner'
-      end else if bytes = [] then "OK " ^ (if Buffer.length buf = 0 then "-" else Buffer.contents buf)
-      else begin
-        List.iter (fun x -> Buffer.add_string buf (Printf.sprintf "%02x" (zi x))) bytes;
-        loop (i + 1) st' inner'
-      end
-    | Model.Err c -> "ERR " ^ sz_of c
-    | Model.Panic _ -> "PANIC"
-    | Model.Fuel -> "FUEL"
-  and sz_of c = sz c in
-  loop 0 (Model.bcj_reader_new a start) inner0
+let read_all a start evs sizes =
+  match Model.bcj_dec_script a start evs sizes with
+  | Model.Ok (bytes, None) -> "OK " ^ hex bytes
+  | Model.Ok (bytes, Some c) -> "ERR " ^ sz c ^ " " ^ hex bytes
+  | Model.Err c -> "ERR " ^ sz c
+  | Model.Panic _ -> "PANIC"
+  | Model.Fuel -> "FUEL"
 
 let install register =
   register "bcj_enc" (function a :: s :: p :: _ -> outcome_bytes (Model.bcj_enc_parts (arch_of a) (zs s) (unhex_parts p)) | _ -> "BADARGS");
   (* same bytes must reach a sink that accepts only a few bytes per call (write_all in the writer) *)
   register "bcj_enc_short" (function a :: s :: p :: _ -> outcome_bytes (Model.bcj_enc_parts (arch_of a) (zs s) (unhex_parts p)) | _ -> "BADARGS");
-  register "bcj_dec" (function a :: s :: p :: sizes :: _ -> read_all (arch_of a) (zs s) (unhex_parts p) (ints sizes) | _ -> "BADARGS");
+  register "bcj_dec" (function a :: s :: p :: sizes :: _ -> read_all (arch_of a) (zs s) (script p) (ints sizes) | _ -> "BADARGS");
   register "bcj_spec" (function a :: dir :: s :: d :: _ -> outcome_bytes (Model.bcj_stream (arch_of a) (dir = "enc") (zs s) (unhex d)) | _ -> "BADARGS")
